@@ -24,7 +24,7 @@ Theorem gen_tables_equiv_model : tables_equiv gen_tables std_tables = true.
 Proof. vm_compute. reflexivity. Qed.
 
 Theorem gen_model_behaviour :
-  forall e : err,
+  forall e : err, uniform e = true ->
     grpc_status_code gen_tables e = grpc_status_code std_tables e /\
     from_grpc gen_tables e = from_grpc std_tables e /\
     (forall c, Is gen_tables e c = Is std_tables e c) /\
